@@ -33,6 +33,7 @@ from . import ROOT, REPO
 EXIT_HELD, EXIT_VIOLATION, EXIT_BROKEN, EXIT_INCONCLUSIVE = 0, 1, 2, 3
 MAX_WITNESSES = 40
 MAX_SAMPLES = 12
+DEBUG_RATIO = float(os.environ.get("VRF_DEBUG_RATIO", "inf"))   # print near misses above this err/tol
 
 
 def hexf(x):
@@ -206,6 +207,9 @@ class Check:
         m = self.monitors.setdefault(monitor, {"calls": 0, "max_ratio": 0.0})
         if r > m["max_ratio"] and np.isfinite(r):
             m["max_ratio"] = r
+        if r > DEBUG_RATIO and r <= 1.0:
+            w = witness() if callable(witness) else (witness or {})
+            sys.stderr.write(f"[near-miss] {monitor} {regime} {entry} {mech} r={r:.3g} {json.dumps(plain(w))[:900]}\n")
         if not (r <= 1.0):
             w = witness() if callable(witness) else (witness or {})
             w = dict(w)
